@@ -9,7 +9,7 @@ const isa = new db.aarch64.ISA(JSON.parse(fs.readFileSync(path.join(repo, "db", 
 let n = 0;
 for (const i of isa.instructions) {
   console.log(JSON.stringify({
-    idx: n++, name: i.name, op: i.opcodeString, t: i.t || "", ta: i.ta || "", tb: i.tb || "", ext: Object.keys(i.ext).sort(), alias: i.aliasOf || "",
+    idx: n++, name: i.name, op: i.opcodeString, t: i.t || "", ta: i.ta || "", tb: i.tb || "", tatb: i["ta.tb"] || "", ext: Object.keys(i.ext).sort(), alias: i.aliasOf || "",
     operands: i.operands.map((p) => ({
       type: p.type, data: p.data, reg: p.reg, regType: p.regType, elementType: p.elementType === undefined ? null : p.elementType,
       element: p.element || null, read: !!p.read, write: !!p.write, optional: !!(p.flags & 1), imm: p.imm, mem: p.mem,
